@@ -35,3 +35,20 @@ package transaction
 //@ loop 1 invariant forall j: int :: 0 <= j && j <= rangeindex && operations[j].Op == "insert" ==> operations[j].UUID != ""
 //@ loop 2 invariant len(results) == len(operations) && cap(results) >= len(results) && fresh(results)
 //@ loop 2 invariant forall j: int :: 0 <= j && j <= rangeindex ==> (results[j] != nil && results[j] != &r && private(results[j]) && results[j].Error == "")
+
+// checkIndexes (C06): when it reports no conflict, EVERY row of EVERY table of
+// the transaction cache has passed the duplicate check against the transaction
+// cache (cache.IndexExists); rows are not skipped.
+//@ pred TxnTablesWF(c *cache.TableCache) := c != nil && c.cache != nil && (forall n: string :: (n in c.cache) ==> (c.cache[n] != nil && CacheWF(c.cache[n]) && IdxWFMaps(c.cache[n]) && (forall u: string :: (u in c.cache[n].cache) ==> (fieldOK(c.cache[n].cache[u], "_uuid") ==> istype(fieldOf(c.cache[n].cache[u], "_uuid"), "string")))))
+//@ func (*Transaction).checkIndexes group idx
+//@ requires t != nil && t.Database != nil && TxnTablesWF(t.Cache)
+//@ modifies nothing
+//@ ensures result == nil ==> (forall n: string, u: string :: (n in t.Cache.cache) && (u in t.Cache.cache[n].cache) ==> RowOK(t.Cache.cache[n], t.Cache.cache[n].cache[u]))
+//@ loop 1 invariant forall j: int, u: string :: 0 <= j && j <= rangeindex && (u in t.Cache.cache[tables[j]].cache) ==> RowOK(t.Cache.cache[tables[j]], t.Cache.cache[tables[j]].cache[u])
+//@ loop 2 invariant forall j: int, u: string :: 0 <= j && j <= rangeindex1 && (u in t.Cache.cache[tables[j]].cache) ==> RowOK(t.Cache.cache[tables[j]], t.Cache.cache[tables[j]].cache[u])
+//@ loop 2 invariant tc == t.Cache.cache[table] && (table in t.Cache.cache)
+//@ loop 2 invariant forall u: string :: visited(u) ==> RowOK(tc, tc.cache[u])
+//@ loop 3 invariant forall j: int, u: string :: 0 <= j && j <= rangeindex1 && (u in t.Cache.cache[tables[j]].cache) ==> RowOK(t.Cache.cache[tables[j]], t.Cache.cache[tables[j]].cache[u])
+//@ loop 3 invariant tc == t.Cache.cache[table] && (table in t.Cache.cache)
+//@ loop 3 invariant forall u: string :: visited2(u) ==> RowOK(tc, tc.cache[u])
+
